@@ -4,13 +4,17 @@ E1: every tree with <= N nodes over 10 zoo classes x every assignment of 3 origi
 with itself, with a separately built copy, and with every single-position deviation over a 7-origin alphabet
 (no-origin, code origins on two sources, an equal-but-distinct code origin, generated, multi); all pairs of
 different small trees; non-node operands; symmetry, negation, reflexivity, transitivity on all triples of every
-same-shape group, and constancy of hash().
+same-shape group, and constancy of hash().  Look-alike property values (0 / False / 0.0, 1 / True / 1.0, also nested in
+tuples and frozensets): all ordered pairs of 20 values at four places; == iff equal values of equal types.
 """
 from __future__ import annotations
 
 import itertools
+from dataclasses import dataclass
+from typing import Any
 
 from .. import boot  # noqa: F401
+from pyoak.node import ASTNode
 from pyoak.origin import merge_origins
 
 from .. import zoo
@@ -22,6 +26,7 @@ RULE = (
     "compared (==, !=, swapped) with itself, an equal copy built separately, and every assignment that deviates at exactly one "
     "position over {none, a, a' (equal, distinct object), a'' (same fqn, unequal), b, other-source, generated, same-fqn-as-generated, multi, multi'}; all triples inside "
     "the group for transitivity (trees <= 2 nodes quick / 3 thorough); all ordered pairs of different trees with <= 2 (3) nodes. "
+    "look-alike values: all ordered pairs of 20 values x 4 places. "
     "states = distinct (tree, assignment) nodes built; transitions = comparisons executed and compared with the reference; "
     "non-trivial = comparisons whose operands are content-equal trees with >= 2 positions that differ in origin at a non-root position"
 )
@@ -176,6 +181,49 @@ def check_pairs(U, trees, rec: Rec, cfg):
             compare(rec, a, b, ka == kb, {"tree": da, "tree_b": db}, "different-trees")
 
 
+@dataclass(frozen=True)
+class EV(ASTNode):
+    v: Any = 0
+    w: Any = None
+
+
+LOOKALIKES = [0, False, 0.0, 1, True, 1.0, "", "0", None, (), (0,), (False,), (0.0,), (1, 0), (True, False), frozenset(), frozenset({0}), frozenset({False}),
+              frozenset({1}), frozenset({1.0})]
+
+
+def typed_key(v):
+    if isinstance(v, (tuple, frozenset)):
+        ks = [typed_key(x) for x in v]
+        return (type(v).__name__, tuple(ks) if isinstance(v, tuple) else tuple(sorted(map(repr, ks))))
+    return (type(v).__name__, repr(v))
+
+
+def check_values(rec: Rec, cfg):
+    """Property values that are == in Python but differ in type (0 / False / 0.0, 1 / True / 1.0, nested in tuples and
+    frozensets): nodes are == exactly when the values are equal AND of equal types (content equality of C01), at the root,
+    in a single child field and inside a tuple."""
+    places = {
+        "root": lambda v: EV(v),
+        "second-property": lambda v: EV(5, v),
+        "single-child": lambda v: zoo.ZU(EV(v)),
+        "in-tuple": lambda v: zoo.ZV((zoo.ZL(), EV(v))),
+    }
+    idx = 0
+    for (pn, mk), va, vb in itertools.product(places.items(), LOOKALIKES, LOOKALIKES):
+        idx += 1
+        if idx % cfg["of"] != cfg["k"]:
+            continue
+        rec.rank = 2 * 10**6 + idx
+        rec.count("states")
+        zoo.reset_registry()
+        a, b = mk(va), mk(vb)
+        exp = typed_key(va) == typed_key(vb)
+        if not exp and va == vb:
+            rec.count("nontrivial")
+        compare(rec, a, b, exp, {"lookalike": True, "place": pn, "a": repr(va), "b": repr(vb)}, "lookalike-values")
+
+
+
 def run_shard(cfg):
     rec = Rec(cfg)
     # configuration dimension: every third shard runs with runtime type checking on (all inputs are well typed,
@@ -196,6 +244,7 @@ def run_shard(cfg):
                 check_tree(U, d, rec, cfg)
     small = [d for n in range(1, cfg["npair"] + 1) for d in U.trees(n)]
     check_pairs(U, small, rec, cfg)
+    check_values(rec, cfg)
     rec.bound = {"max_nodes": cfg["n"], "pairs_and_triples_up_to_nodes": cfg["npair"]}
     return rec.result()
 
@@ -205,7 +254,9 @@ def replay(case, cfg):
     U = zoo.universe(UNIV)
     cfg = dict(cfg)
     cfg.setdefault("npair", 3)
-    if "tree_b" in case:
+    if case.get("lookalike"):
+        check_values(rec, dict(cfg, k=0, of=1))
+    elif "tree_b" in case:
         zoo.reset_registry()
         a, b = U.build(case["tree"]), U.build(case["tree_b"])
         compare(rec, a, b, U.key(case["tree"]) == U.key(case["tree_b"]), case, "different-trees")
